@@ -623,9 +623,24 @@ impl Printer {
     }
 
     pub fn program(&mut self, p: &Program) {
-        for g in &p.globals {
-            let t = self.decl_text(g, true);
+        let mut i = 0;
+        while i < p.globals.len() {
+            let g = &p.globals[i];
+            let mut t = self.decl_text(g, true);
+            // two consecutive constant pointers of one type are declared together now and then
+            // (`char * const A = 0x280, * const B = 0x0;`): decided by the addresses, so that the
+            // text is a function of the program
+            if let (VarKind::ConstPtr(a), Some(h)) = (&g.kind, p.globals.get(i + 1)) {
+                if let VarKind::ConstPtr(b) = &h.kind {
+                    if h.ty == g.ty && h.mem == g.mem && h.explicit_sign == g.explicit_sign && (a + b) % 2 == 0 {
+                        t.pop();
+                        t.push_str(&format!(", * const {} = 0x{:x};", h.name, b));
+                        i += 1;
+                    }
+                }
+            }
             self.line(&t);
+            i += 1;
         }
         for f in &p.funcs {
             if f.proto {
